@@ -102,7 +102,7 @@ def empty_slash_left(t):
 
 def item_trees(items):
     for _, it in items:
-        if it[0] == "par1":
+        if it[0] in ("par1", "par0"):
             yield it[1]
             continue
         if it[0] == "grp":
@@ -165,6 +165,9 @@ def judge(ctx, case):
     except Exception as e:  # pylint: disable=broad-except
         if empty_effect:
             ctx.classes["either_or:empty_effect_raised"] += 1
+            return
+        if any(it[0] == "par0" for _, it in items):
+            ctx.classes["either_or:parenthesised_zero_refused"] += 1
             return
         ctx.fail("raises", full, f"{formula!r} raised {type(e).__name__}: {e}", core.exc_key(e))
         return
@@ -289,6 +292,10 @@ def _placement_cases(quick):
             yield pre + [["+", ("par1", t)]]
             yield pre + [["+", ("var", "b")], ["+", ("par1", t)]]
             yield pre + [["+", ("par1", t)], ["-", ("par1", t)]]
+            if not pre or pre[0][1] == ("var", "b"):
+                # `(0 + e)` as an item: refused today; if accepted one day, the 0 still removes the intercept
+                yield pre + [["+", ("par0", t)]]
+                yield [["+", ("par0", t)]] + pre
     # 2) group items
     effects = [None] + (small if not quick else small[:20])
     for lead in (None, "0", "1", "-1"):
